@@ -47,6 +47,11 @@ class Obj:
         return sym(self.name)
 
 
+class Ent(Obj):
+    """Abstract record with identity (an index, a node, a key object): ``==``, ``is``, ``in`` and dictionary lookups
+    against other concrete values are decided by identity instead of becoming symbolic comparisons."""
+
+
 class Func:
     def __init__(self, node, frames, module, qual=None, bound=None):
         self.node, self.frames, self.module, self.qual, self.bound = node, frames, module, qual, bound
@@ -701,6 +706,13 @@ class Symex:
             self.unsupported(node, f"arithmetic on {type(a).__name__}, {type(b).__name__}")
 
     def compare(self, opname, a, b, node):
+        if (isinstance(a, Ent) or isinstance(b, Ent)) and opname in ("==", "!=", "is", "is not") \
+                and not isinstance(a, T) and not isinstance(b, T):
+            return (a is b) if opname in ("==", "is") else (a is not b)
+        if isinstance(a, Ent) and opname in ("in", "not in"):
+            r = self.contains(b, a, node)
+            if isinstance(r, bool):
+                return r if opname == "in" else not r
         if isinstance(a, Ext):
             a = sym(a.name)
         if isinstance(b, Ext):
@@ -744,6 +756,9 @@ class Symex:
             self.unsupported(node, "comparison of unsupported values")
 
     def contains(self, coll, x, node):
+        if isinstance(x, Ent) and isinstance(coll, (list, tuple, set, frozenset, dict)) \
+                and not any(isinstance(e, T) for e in coll):
+            return any(e is x for e in coll)
         if isinstance(coll, Obj):
             coll = coll.term
         if isinstance(x, Obj):
@@ -1350,7 +1365,7 @@ class Symex:
             import math
             return math.factorial(args[0])
         if name == "Counter" and len(args) <= 1 and not any(_has_sym(a) for a in args):
-            c = {}
+            c = _Counter()
             for x in (self.iterate(args[0], node) if args else []):
                 c[x] = c.get(x, 0) + 1
             return c
@@ -1581,6 +1596,13 @@ class _DefaultDict(dict):
         for k, v in self.items():
             dict.__setitem__(c, k, copy.deepcopy(v, memo))
         return c
+
+
+class _Counter(dict):
+    """collections.Counter: a missing key reads as 0 and is not stored."""
+
+    def __missing__(self, k):
+        return 0
 
 
 def _eq(a, b):
